@@ -412,7 +412,8 @@ def parseHeaderL : Parser HeaderL := fun s =>
       | none => none
       | some (v, s) => some ({ optional := o.isSome, name := name, value := v }, s)
 
-def parseHttpSigL : Parser HttpSigL := fun s => do
+/-- `parse_http_signature` before its name filter: `habsent` as `separated_list0` returned it -/
+def parseHttpSigRawL : Parser HttpSigL := fun s => do
   let (version, s) ← parseHttpVersion s
   let (_, s) ← colon s
   let (horder, s) ← sepList1 comma parseHeaderL s
@@ -420,7 +421,16 @@ def parseHttpSigL : Parser HttpSigL := fun s => do
   let (habsent, s) ← opt (sepList0 comma parseHeaderL) s
   let (_, s) ← colon s
   let (expsw, s) ← rest s
-  pure ({ version, horder, habsent := (habsent.getD []).filter (fun h => !h.name.isEmpty), expsw }, s)
+  pure ({ version, horder, habsent := habsent.getD [], expsw }, s)
+
+/-- `.filter(|h| !h.name.is_empty())` on `habsent` -/
+def filterHabsent (s : HttpSigL) : HttpSigL :=
+  { s with habsent := s.habsent.filter (fun h => !h.name.isEmpty) }
+
+def parseHttpSigL : Parser HttpSigL := fun s =>
+  match parseHttpSigRawL s with
+  | some (v, r) => some (filterHabsent v, r)
+  | none => none
 
 def parseHttpSigFullL (s : Str) : Option HttpSigL := full parseHttpSigL s
 /-- `<http::Signature as FromStr>::from_str` -/
